@@ -26,11 +26,6 @@ def add(id, props, what, match, witness, status="open", **kw):
 
 PRIM_ALL = ["C01", "C02", "C04", "C05", "C07", "C09", "C15"]
 
-add("KF-diagonal-nonsquare", ["C01", "C04", "C05", "C07", "C09"],
-    "np.diagonal(x, 0, -1, -2) (the only axes its VJP supports) of an array whose last two dimensions differ: make_diagonal builds a square block, the cotangent has the wrong shape. A repair needs the argument's shape inside make_diagonal (signature change), so it is recorded, not fixed",
-    {"prim": "diagonal", "args": {"0": {"__re__": "[rc][234]n.*"}}, "symptom": ["wrong_shape"]},
-    case("diagonal", [A(2, 4)], {"axis1": -1, "axis2": -2}))
-
 add("KF-kron-nd", ["C01", "C04", "C07", "C09", "C15"],
     "np.kron with an operand of 3 or more dimensions: grad_kron reshapes as if both operands were at most 2-D and silently returns a wrong cotangent",
     {"prim": "kron", "args": {"__any_item__": {"__re__": "[rc][345].*"}}, "symptom": ["wrong_value", "not_adjoint", "wrong_shape", "modes_disagree"]},
@@ -96,6 +91,7 @@ fixed("FX-trace-id-worker-thread-inside-trace", ["C08"], "f25b59d", "a nested di
 fixed("FX-pinv-complex", ["C09"], "0ffe893", "np.linalg.pinv of a complex matrix: the rule used plain transposes / the unconjugated cotangent where the differential involves the conjugate transpose", case("pinv", [C(3, 2)], ns="linalg"))
 fixed("FX-slogdet-complex-sign", ["C09"], "9b5e67c", "np.linalg.slogdet of a complex matrix: the cotangent of the sign output det/|det| was ignored", case("slogdet", [W(2, True)], ns="linalg", tags=["both_outputs"]))
 fixed("FX-cholesky-complex", ["C09"], "534c93e", "np.linalg.cholesky of a complex Hermitian matrix: the rule symmetrised/solved with plain transposes (no conjugate) and was wrong for complex input", case("cholesky", [SPD(3, True)], ns="linalg", domain="herm"))
+fixed("FX-diagonal-nonsquare", ["C01", "C04", "C05", "C07", "C09"], "3f41113", "np.diagonal(x, 0, -1, -2) of an array whose last two dimensions differ: make_diagonal built a square block and the cotangent had the wrong shape", case("diagonal", [A(2, 4)], {"axis1": -1, "axis2": -2}))
 fixed("FX-where-jvp-broadcast", ["C05", "C02"], "423a953", "forward-mode np.where returned a tangent with the branch's shape/kind instead of the output's", case("where", [cc, A(3), A(2, 2, 3)], argnum=1), witness_mode="fwd")
 
 out = {"_comment": "Known findings: genuine defects of HIPS/autograd that are recorded rather than repaired (status open) and defects repaired by a 'fix:' commit (status fixed; fixed entries suppress nothing - their witnesses are re-run on every check and a failing one is an ordinary VIOLATION). `match` is a conjunction over fields of the case signature (lists = any of; {__re__}: regex; {__has__}: list membership); never a seed, hash or random value. Read-only at run time.", "findings": F}
